@@ -824,6 +824,13 @@ func (g *graph) compile(ctx context.Context, opt *graphCompileOptions) (*composa
 		if err != nil {
 			return nil, err
 		}
+		// in all-predecessor mode a node is triggered by its predecessors: a node that has none
+		// (no edge and no branch leads to it) could only be scheduled vacuously, on every round
+		for key := range r.chanSubscribeTo {
+			if len(controlPredecessors[key]) == 0 && len(dataPredecessors[key]) == 0 {
+				return nil, fmt.Errorf("node[%s] has no predecessor, it can never be triggered in all-predecessor mode", key)
+			}
+		}
 		r.dag = true
 	}
 
